@@ -26,10 +26,25 @@ type vfFilterRig struct {
 	mu        sync.Mutex
 	attached  func(p []byte)
 	idn       int64
+	up, down  []*vfWire // up[0] written by the filter ... up[n] read at the server end; down[0] written by the server ... down[n] read by the filter
+	relays    []*TrzszRelay
 }
 
 func vfNewFilterRig(c *vfCtx, opts TrzszOptions) *vfFilterRig {
-	r := &vfFilterRig{c: c, clientIn: vfNewWire("ci"), clientOut: vfNewSink(), serverIn: vfNewWire("si"), serverOut: vfNewWire("so"), siSink: vfNewSink()}
+	return vfNewFilterRigRelays(c, opts, 0)
+}
+
+// vfNewFilterRigRelays puts n real relays between the filter and the server end.
+func vfNewFilterRigRelays(c *vfCtx, opts TrzszOptions, n int) *vfFilterRig {
+	r := &vfFilterRig{c: c, clientIn: vfNewWire("ci"), clientOut: vfNewSink(), siSink: vfNewSink()}
+	for i := 0; i <= n; i++ {
+		r.up = append(r.up, vfNewWire(fmt.Sprintf("up%d", i)))
+		r.down = append(r.down, vfNewWire(fmt.Sprintf("down%d", i)))
+	}
+	r.serverIn, r.serverOut = r.up[n], r.down[0]
+	for i := 0; i < n; i++ {
+		r.relays = append(r.relays, NewTrzszRelay(r.up[i], vfWriterCloser{r.down[n-i]}, vfWriterCloser{r.up[i+1]}, r.down[n-1-i], TrzszOptions{}))
+	}
 	go func() {
 		buf := make([]byte, 32*1024)
 		for {
@@ -50,7 +65,7 @@ func vfNewFilterRig(c *vfCtx, opts TrzszOptions) *vfFilterRig {
 		}
 	}()
 	opts.TerminalColumns = 100
-	r.filter = NewTrzszFilter(r.clientIn, r.clientOut, vfWriterCloser{r.serverIn}, r.serverOut, opts)
+	r.filter = NewTrzszFilter(r.clientIn, r.clientOut, vfWriterCloser{r.up[0]}, r.down[n], opts)
 	if opts.DetectDragFile {
 		time.Sleep(30 * time.Millisecond) // drag detection is switched on by a goroutine
 	}
@@ -65,8 +80,12 @@ func (r *vfFilterRig) attach(f func(p []byte)) {
 
 func (r *vfFilterRig) Close() {
 	r.clientIn.Close()
-	r.serverOut.Close()
-	r.serverIn.Close()
+	for _, w := range r.up {
+		w.Close()
+	}
+	for _, w := range r.down {
+		w.Close()
+	}
 }
 
 func (r *vfFilterRig) trigger(mode string, version string) string {
